@@ -18,6 +18,17 @@ from mutwo import core_parameters as cp  # noqa: E402
 
 C, S, P = ce.Chronon, ce.Consecution, ce.Concurrence
 TICK = 10**10
+DIGITS = 10
+
+
+def set_resolution(case):
+    """every eighth case (decided by the case text) runs under the library's public precision switch set to 12 digits, the
+    tick of the case then being 1e-12 beats: the model counts in ticks, so its answers are the same"""
+    global TICK, DIGITS
+    fine = os.environ.get("VERIF_DEFAULT_PRECISION") != "1" and sum(map(ord, sx.show(case))) % 8 == 3
+    DIGITS = 12 if fine else 10
+    TICK = 10 ** DIGITS
+    cp.configurations.ROUND_DURATION_TO_N_DIGITS = DIGITS
 
 
 def ticks(duration):
@@ -61,7 +72,7 @@ class TickDuration(cp.abc.Duration):
 
     @property
     def beat_count(self):
-        return round(self._tick_count / TICK, 10)
+        return round(self._tick_count / TICK, DIGITS)
 
     @beat_count.setter
     def beat_count(self, beat_count):
@@ -325,7 +336,21 @@ def apply_op1(t, op):
         r = t + o
         return r, [["recv", snap(t)], ["other", snap(o)]]
     if k == "remove_by":
-        return t.remove_by(keep_of(op[1])), []
+        extra = []
+        if isinstance(t, S) and len(t) and all(isinstance(c, C) for c in t):
+            # "every container": the same pruning on the library's other sequence classes (an envelope, a tempo trajectory -
+            # they override list access), holding copies of the same leaves
+            want = [[ticks(c.duration), getattr(c, "name", -1)] for c in t if keep_of(op[1])(c)]
+            for cls in (ce.Envelope, cp.FlexTempo):
+                kids = [c.copy() for c in t]
+                for c in kids:
+                    c.value, c.curve_shape = 1, 0
+                o = cls(kids)
+                r = o.remove_by(keep_of(op[1]))
+                got = [[ticks(c.duration), getattr(c, "name", -1)] for c in o]
+                if got != want or r is not o:
+                    extra.append(["another-container-class-prunes-differently", cls.__name__, got, want])
+        return t.remove_by(keep_of(op[1])), extra
     if k == "tie_by":
         return t.tie_by(tie_of(op[1]), event_type_to_examine=C, event_to_remove=op[2] in ("1", "true")), []
     if k == "tie_all":
@@ -422,6 +447,7 @@ def run(case):
 
 
 def run1(case):
+    set_resolution(case)
     _DURPOOL.clear()
     k = case[0]
     if k == "dur":
